@@ -319,27 +319,27 @@ Print Assumptions c06_bytes_pax_total.
    is the model with the two facts goextract reads from the fs.WalkDir callback of
    walkFS: c06_ctx_err_returned (the callback returns the error of a cancelled
    context) and c06_root_err_checked (it tests the reported error before it skips
-   the root path).
+   the root path; true since commit 13a240b).
    ====================================================================== *)
 
-(* c06_fault_reported_partial — every fault except an error of the root
-   directory is reported to the consumer of walkFS (so writeTar fails and no
-   layer is handed out), or came after the last entry, in which case the walk is
-   complete.  Missing for the full statement: the root (c06_fault_root_refuted). *)
-Theorem c06_fault_reported_partial : forall ev f ft, ft <> FErrRoot ->
+(* c06_fault_reported — EVERY fault (context cancelled before the walk or while
+   any entry is produced; Stat / ReadDir of the root, ReadDir of any directory,
+   Readlink, Readnod, Open of any content failing) is reported to the consumer of
+   walkFS — so writeTar fails and no layer is handed out — or came after the last
+   entry, in which case the walk is complete.  Stated with the two facts read from
+   the callback (c06_ctx_err_returned, c06_root_err_checked): it stops being
+   provable when the callback ends the walk on a cancelled context or skips the
+   root before testing the reported error. *)
+Theorem c06_fault_reported : forall ev f ft,
   walk_faulty ev f ft = Err \/ walk_faulty ev f ft = Ok (walk ev f).
 Proof. exact fault_reported_or_complete. Qed.
-Print Assumptions c06_fault_reported_partial.
+Print Assumptions c06_fault_reported.
 
-(* c06_fault_root_refuted — with the callback as it is (c06_root_err_checked =
-   false: `path == "."` is tested before `err != nil`) an error of Stat(".") /
-   ReadDir(".") is dropped: the walk ends with nothing yielded and no error, and the
-   layer of a non-empty filesystem is empty [finding C06-F6].  The statement
-   follows the order read from the source: with the error tested first
-   (fixes/C06-F6.patch) it says that the root's error is reported, for every tree. *)
-Theorem c06_fault_root_refuted :
-  if c06_root_err_checked
-  then forall ev f, walk_faulty ev f FErrRoot = Err
-  else walk_faulty env_nohdr w_one FErrRoot = Ok [] /\ walk env_nohdr w_one <> [] /\ validate [] [] w_one [] <> [].
-Proof. exact fault_root. Qed.
-Print Assumptions c06_fault_root_refuted.
+(* c06_fault_root_before_fix_refuted — hypothetical, the callback as it was before
+   commit 13a240b (root test first, root_checked = false): an error of Stat(".") /
+   ReadDir(".") was dropped, the walk ended with nothing yielded and no error, and
+   the layer of a non-empty filesystem was empty [C06-F6, fixed] *)
+Theorem c06_fault_root_before_fix_refuted :
+  walk_under_fault true false env_nohdr w_one FErrRoot = Ok [] /\ walk env_nohdr w_one <> [] /\ validate [] [] w_one [] <> [].
+Proof. exact fault_root_before_fix. Qed.
+Print Assumptions c06_fault_root_before_fix_refuted.
